@@ -914,6 +914,9 @@ class X:
                 return ('indexed', length, lambda i: VTuple([VInt(i + start), item_at(i)]))
             raise Unsupported('enumerate over generator')
         v = self.eval(node)
+        if hasattr(v, 'indexed'):
+            length, item_at = v.indexed()
+            return ('indexed', length, item_at)
         if hasattr(v, 'as_seq'):
             v = v.as_seq()
         if isinstance(v, (VTuple, VList)):
